@@ -4,7 +4,7 @@
    every key type whose comparison is a strict weak order (SWO), hence for all six Go tree types (C11). *)
 From Coq Require Import ZArith NArith List Bool.
 From GB Require Import Model Spec Inv Order OrderProof SearchProof SpecLaws InvProof SearchScanProof
-     UpsertProof DeleteProof HistoryProof KeyOrders Conc LockInv LockProof ConcProps.
+     UpsertProof DeleteProof HistoryProof KeyOrders KnownFindings Conc LockInv LockProof ConcProps.
 Import ListNotations.
 Open Scope nat_scope.
 
@@ -21,6 +21,18 @@ Theorem C01_refines_map :
             entries t = fst (run_spec ltb [] ops) /\ Inv ltb order t.
 Proof. exact history_refines. Qed.
 Print Assumptions C01_refines_map.
+
+(* known finding K1, as a theorem: at order 2 a history with a Delete can panic (witness I1 I2 I5 I2 D1 ->
+   "both left and right siblings have no children"), so order 2 is covered only without Delete *)
+Theorem C01_order2_delete_refuted :
+  exists ops : list (op Z Z), Nat.even 2 = true /\ 2 <= 2 /\ forall t x, run_tree Z.ltb 2 (Leaf []) ops <> Ok (t, x).
+Proof. exact order2_delete_refuted. Qed.
+Print Assumptions C01_order2_delete_refuted.
+
+(* the hypotheses are satisfiable: a concrete three-level tree at order 4 meets the invariant *)
+Theorem C01_invariant_nonvacuous : Inv Z.ltb 4 sample_tree.
+Proof. exact (proj1 (inv_b_iff Z Z Z.ltb 4 sample_tree) sample_tree_inv). Qed.
+Print Assumptions C01_invariant_nonvacuous.
 
 (* the same from any tree satisfying the invariant (every reachable tree does) *)
 Theorem C01_refines_map_from :
